@@ -6,7 +6,7 @@
 Prints one summary line per check:  DETECTED / MISSED.
 """
 import json, os, subprocess, sys
-WT = '/tmp/wt-main'
+WT = os.environ.get('VERIF_WT', '/tmp/wt-main')
 def sh(cmd, **kw):
     return subprocess.run(cmd, shell=True, stdout=subprocess.PIPE, stderr=subprocess.STDOUT, text=True, **kw)
 def main():
